@@ -59,7 +59,7 @@ func (h *c19Hints) availableChanBandwidth(channelID uint64,
 
 func (h *c19Hints) isCustomHTLCPayment() bool { return false }
 
-func c19ChanInput(j int) (c19Chan, *unifiedEdge) {
+func c19ChanInput(j int, inbound bool) (c19Chan, *unifiedEdge) {
 	c := c19Chan{
 		chanID:   uint64(1001 + j),
 		hasMax:   vBool("hasMaxHTLC"),
@@ -75,11 +75,16 @@ func c19ChanInput(j int) (c19Chan, *unifiedEdge) {
 		bw:       vU64("bandwidth"),
 		bwKnown:  vBool("bandwidthKnown"),
 	}
+	if !inbound {
+		// entries with several parallel channels: no inbound fees (the
+		// general inbound fee is covered with one channel)
+		c.ibase, c.irate = 0, 0
+	}
 	// --- stated domain ---
-	vAssume(c.base <= 0xffffffff)                         // fee_base_msat is a uint32 on the wire
-	vAssume(c.rate <= 1_000_000)                          // proportional fee up to 100 %
+	vAssume(c.base <= 0xffffffff)                          // fee_base_msat is a uint32 on the wire
+	vAssume(c.rate <= 1_000_000)                           // proportional fee up to 100 %
 	vAssume(c.irate <= c19InRate && c.irate >= -c19InRate) // inbound rate domain
-	vAssume(c.capSat >= 0 && c.capSat <= c19MaxSupply)    // 0 = capacity unknown
+	vAssume(c.capSat >= 0 && c.capSat <= c19MaxSupply)     // 0 = capacity unknown
 	var to route.Vertex
 	to[0] = 2
 	pol := &models.CachedEdgePolicy{
@@ -148,11 +153,11 @@ func c19UnifierConfig() {
 	vAssumption("unifier: netAmtReceived <= 20 BTC (amount <= 10 BTC plus its outbound fee), nextOutFee <= netAmtReceived (findPath: netAmountReceived = amountToSend + outboundFee), fee_base_msat < 2^32, fee rate <= 1e6 ppm, |inbound fee rate| <= C19_INRATE ppm, inbound base any int32, min/max HTLC any uint64, capacity 0 (unknown) .. 21e6 BTC, bandwidth hint any uint64 or unknown, not a custom-HTLC payment")
 }
 
-func c19UnifierInputs(n int) ([]c19Chan, *edgeUnifier, uint64, uint64) {
+func c19UnifierInputs(n int, inbound bool) ([]c19Chan, *edgeUnifier, uint64, uint64) {
 	u := &edgeUnifier{}
 	var chans []c19Chan
 	for j := 0; j < n; j++ {
-		c, e := c19ChanInput(j)
+		c, e := c19ChanInput(j, inbound)
 		chans = append(chans, c)
 		u.edges = append(u.edges, e)
 	}
@@ -181,14 +186,18 @@ func c19Same(r *unifiedEdge, c c19Chan) bool {
 		r.inboundFees.Base == c.ibase && r.inboundFees.Rate == c.irate
 }
 
-// VerifC19UnifierNetwork<n>: n parallel channels between two remote nodes.
-func VerifC19UnifierNetwork1() { c19UnifierNetwork(1) }
-func VerifC19UnifierNetwork2() { c19UnifierNetwork(2) }
-func VerifC19UnifierNetwork3() { c19UnifierNetwork(3) }
+// VerifC19UnifierNetwork1: one channel between two remote nodes, inbound fee
+// symbolic. VerifC19UnifierNetwork<n>NoInbound: n parallel channels without
+// inbound fees, everything else symbolic (then all channels carry the same
+// amount and the synthetic policy has to dominate every usable channel's
+// outbound fee and delta).
+func VerifC19UnifierNetwork1()          { c19UnifierNetwork(1, true) }
+func VerifC19UnifierNetwork2NoInbound() { c19UnifierNetwork(2, false) }
+func VerifC19UnifierNetwork3NoInbound() { c19UnifierNetwork(3, false) }
 
-func c19UnifierNetwork(n int) {
+func c19UnifierNetwork(n int, inbound bool) {
 	c19UnifierConfig()
-	chans, u, net, nextOut := c19UnifierInputs(n)
+	chans, u, net, nextOut := c19UnifierInputs(n, inbound)
 	u.localChan = false
 
 	r := u.getEdge(lnwire.MilliSatoshi(net), &c19Hints{ch: chans}, lnwire.MilliSatoshi(nextOut))
@@ -225,19 +234,24 @@ func c19UnifierNetwork(n int) {
 		usable := !e.disabled && e.inRange
 		vAssert(!usable || r.policy.TimeLockDelta >= e.delta, "synthetic time-lock delta is the maximum over the usable channels")
 		vAssert(!usable || fee >= e.nodeFee, "chosen channel demands the maximum node fee over the usable channels")
+		if !inbound {
+			vAssert(!usable || uint64(r.policy.ComputeFee(lnwire.MilliSatoshi(amt))) >= c19OutFee(c19Pol{base: e.base, rate: e.rate}, amt),
+				"no inbound fees: the fee computed from the returned policy covers every usable channel's outbound fee")
+		}
 		isSome = isSome || (usable && r.policy.TimeLockDelta == e.delta)
 	}
 	vAssert(isSome, "synthetic time-lock delta is the delta of a usable channel")
 }
 
-// VerifC19UnifierLocal<n>: n channels of the sender itself to one peer (first hop).
-func VerifC19UnifierLocal1() { c19UnifierLocal(1) }
-func VerifC19UnifierLocal2() { c19UnifierLocal(2) }
-func VerifC19UnifierLocal3() { c19UnifierLocal(3) }
+// VerifC19UnifierLocal1 / VerifC19UnifierLocal<n>NoInbound: the same for
+// channels of the sender itself to one peer (first hop).
+func VerifC19UnifierLocal1()          { c19UnifierLocal(1, true) }
+func VerifC19UnifierLocal2NoInbound() { c19UnifierLocal(2, false) }
+func VerifC19UnifierLocal3NoInbound() { c19UnifierLocal(3, false) }
 
-func c19UnifierLocal(n int) {
+func c19UnifierLocal(n int, inbound bool) {
 	c19UnifierConfig()
-	chans, u, net, nextOut := c19UnifierInputs(n)
+	chans, u, net, nextOut := c19UnifierInputs(n, inbound)
 	u.localChan = true
 
 	r := u.getEdge(lnwire.MilliSatoshi(net), &c19Hints{ch: chans}, lnwire.MilliSatoshi(nextOut))
